@@ -1037,7 +1037,9 @@ class Simulation:
                 # Loop over source-frequency pairs.
                 for src, freq in self._srcfreq:
 
-                    efield = self._dict_get('efield', src, freq)
+                    # (get_efield re-computes the field if it was removed,
+                    # e.g., by clean('keepresults') or copy('results').)
+                    efield = self.get_efield(src, freq)
                     bfield = self._dict_get('bfield', src, freq)
 
                     # Multiply forward field with backward; take real part.
@@ -1336,8 +1338,8 @@ class Simulation:
             """Collect inputs."""
             source, freq = inp
 
-            # Forward electric field
-            efield = self._dict_get('efield', source, freq)
+            # Forward electric field (re-computed if it was removed).
+            efield = self.get_efield(source, freq)
 
             # Interpolate to computational grid.
             cvector = [
